@@ -435,6 +435,17 @@ func TestVerifC18(t *testing.T) {
 					if old, ok := model[name]; ok && len(content) < len(old) {
 						res.Hit("overwrite-shorter")
 					}
+					if rnd.Intn(3) == 0 {
+						// the destination already holds another object of the same length,
+						// written after the source: the copy replaces it all the same
+						oc := rnd.Bytes(len(content))
+						if w2, err := bh.Object(name).NewWriter(ctx); err == nil {
+							w2.Write(oc)
+							w2.Close()
+							model[name] = oc
+							res.Hit("copy-over-newer-object-of-same-length")
+						}
+					}
 					if err := Copy(ctx, bh.Object(name), other.Object(src)); err != nil {
 						res.Violate("copy-failed", err.Error(), rp)
 						bad = true
@@ -560,7 +571,7 @@ func TestVerifC18(t *testing.T) {
 			os.RemoveAll(root)
 		}
 	})
-	res.Require("bucket-directory-is-a-symlink", "two-writers-at-once", "overlapping-listings", "list-during-write", "write-to-directory-of-objects", "copy-from-absent-source", "listing-under-cancelled-context", "overwrite-shorter", "read-absent", "read-absent:below-an-object", "read-absent:directory-of-objects", "list", "list-deeply-nested")
+	res.Require("bucket-directory-is-a-symlink", "two-writers-at-once", "overlapping-listings", "list-during-write", "write-to-directory-of-objects", "copy-from-absent-source", "copy-over-newer-object-of-same-length", "listing-under-cancelled-context", "overwrite-shorter", "read-absent", "read-absent:below-an-object", "read-absent:directory-of-objects", "list", "list-deeply-nested")
 	if err := res.Write(); err != nil {
 		t.Fatal(err)
 	}
